@@ -298,4 +298,52 @@ example : parseUDPHeader toyIP [0, 0, 0, 3, 1, 97, 0, 53, 255] = .ok ⟨[97], 53
 
 example : holdsUdp toyIP [0, 0, 0, 3, 1, 97, 0, 53, 255] ⟨.fail .tooShort, none⟩ = false := by decide
 
+/-! ### Datagrams in flight: `UDPRelay.readLoop` and its `handlePacket` goroutines -/
+
+/-- `readLoop` detaches the datagram from its read buffer (`make` + `copy`) *before* the `go`
+statement and does not parse; `handlePacket` parses its own copy and sends the payload it parsed. -/
+theorem C20_skel_relay :
+    Skel.UDPRelay_readLoop = ["make", "udpConn.ReadFromUDP", "make", "copy", "r.handlePacket"] ∧
+    Skel.UDPRelay_handlePacket =
+      ["r.parseUDPHeader", "r.handleDNSQuery", "r.getOrCreateSession", "tunnel.SendPacket"] := by decide
+
+/-- **Payload intact for every burst and every schedule.**  For every sequence of datagrams sent to
+the relay's socket (valid or not, back to back or not) and every interleaving of the reader with the
+goroutines it starts — any list of `read` / `run i` steps, the shared buffer being overwritten by
+each read — once everything has run, the tunnels have received exactly one packet per datagram
+the RFC gives a reading, for that destination, carrying exactly that datagram's payload: nothing
+corrupted, duplicated, lost or sent to another destination. -/
+theorem C20_relay_intact (c : IPText) (ds : List Bytes) (sch : List RStep)
+    (hq : ((Relay.init ds).exec c .copyAtRead sch).quiescent = true) :
+    holdsRelay c ds ((Relay.init ds).exec c .copyAtRead sch).sent = true :=
+  relay_holds c ds sch hq
+
+/-- …and at every moment of every schedule (complete or not), nothing has reached a tunnel that is
+not one of the expected packets (with multiplicity). -/
+theorem C20_relay_safe_prefix (c : IPText) (ds : List Bytes) (sch : List RStep) (a : UDest) :
+    ((Relay.init ds).exec c .copyAtRead sch).sent.count a ≤ (relayExpect c ds).count a := by
+  have h := (Relay.inv_exec c ds sch _ (Relay.inv_init c ds)).2 a
+  rw [← h]
+  simp only [Relay.pending, List.count_append]
+  omega
+
+/-- The schedule quantifier is not idle: in the hazard variant (payload still a slice of the read
+buffer when the goroutine starts) the very same datagrams are forwarded intact when each goroutine
+runs before the next read, and corrupted when the reader gets ahead — datagram 1 leaves with
+datagram 2's bytes. -/
+theorem C20_relay_alias_witness :
+    holdsRelay toyIP [[0, 0, 0, 1, 10, 1, 2, 3, 0, 80, 1, 1], [0, 0, 0, 1, 10, 1, 2, 4, 0, 81, 2, 2]]
+      ((Relay.init [[0, 0, 0, 1, 10, 1, 2, 3, 0, 80, 1, 1], [0, 0, 0, 1, 10, 1, 2, 4, 0, 81, 2, 2]]).exec toyIP
+        .aliasUntilRun [.read, .run 0, .read, .run 0]).sent = true ∧
+    holdsRelay toyIP [[0, 0, 0, 1, 10, 1, 2, 3, 0, 80, 1, 1], [0, 0, 0, 1, 10, 1, 2, 4, 0, 81, 2, 2]]
+      ((Relay.init [[0, 0, 0, 1, 10, 1, 2, 3, 0, 80, 1, 1], [0, 0, 0, 1, 10, 1, 2, 4, 0, 81, 2, 2]]).exec toyIP
+        .aliasUntilRun [.read, .read, .run 0, .run 0]).sent = false := by decide
+
+/-- Non-vacuity of `C20_relay_intact`: a burst with an invalid datagram in the middle, the reader
+running ahead of all goroutines, which then finish out of order. -/
+example :
+    ((Relay.init [[0, 0, 0, 1, 10, 1, 2, 3, 0, 80, 1, 1], [0, 0, 1, 1], [0, 0, 0, 3, 1, 97, 0, 53, 7]]).exec toyIP
+      .copyAtRead [.read, .read, .read, .run 2, .run 0, .run 0]) =
+    ⟨[0, 0, 0, 3, 1, 97, 0, 53, 7, 80, 1, 1], [], [], [⟨[97], 53, [7]⟩, ⟨[10, 1, 2, 3], 80, [1, 1]⟩]⟩ := by decide
+
 end Tunnox.C20
